@@ -735,6 +735,12 @@ Definition do_start_task (sp : spec) (s : st) (tid : nat) (first rerun reset : b
     if is_idle (t_state r)
     then (commit (check_affected sp (schedule_action (task_set_state s tid RUNNING, []) tid) tid), Ok)
     else (commit (check_affected sp (s, []) tid), Ok)
+  else if negb rerun && negb (is_idle (t_state r)) then
+    (* F18 fix: a resume-issued request for a task that has started meanwhile is ignored *)
+    (s, Ok)
+  else if negb rerun then
+    (* F17 fix: a task that never started is started like a new one (_run_new) *)
+    (commit (check_affected sp (schedule_action (task_set_state s tid RUNNING, []) tid) tid), Ok)
   else
     (* _run_existing *)
     if state_eqb (t_state r) SUCCESS then
